@@ -16,6 +16,7 @@ from automata.base.exceptions import RejectionException
 from automata.fa.dfa import DFA
 from automata.fa.nfa import NFA
 
+from harness import fa_reuse as FR
 from harness import gen
 from harness.common import (guarded, Ctx, Names, Toks, call, enc_dfa, enc_nfa, enc_word, exc_name, sym_names,
                             toks)
@@ -26,7 +27,11 @@ RULE = ("cases = (valid DFA or NFA, word); bounded-exhaustive small automata × 
         "random words; DFAs are also read with ignore_rejection=True; families: empty alphabet, NFAs with transition "
         "rows keyed by non-states, non-str items for `in` (None, 5, ('a',), b'a', 1.5, frozenset()); big cases (oracle "
         "only, no model call): ε-chains / ε-cycles of ~1500 states, union-like towers, 1500-state DFAs, read with the "
-        "independent textbook interpreter; a case is non-trivial when the word is non-empty and the automaton has ≥2 "
+        "independent textbook interpreter; constructor-argument reuse (the SAME dict/set objects edited in place — "
+        "targets, rows, final states, new states, a shared target set, a typo that makes the definition invalid for a "
+        "while — and handed to the constructor again, default and mutable configuration: every automaton must follow "
+        "a deep copy of the containers taken at its construction, earlier automata keep following theirs); NFAs whose "
+        "target collections are lists / tuples / frozensets; a case is non-trivial when the word is non-empty and the automaton has ≥2 "
         "states; distinct = distinct (definition, word) pairs")
 ASSUMPTIONS = [
     "state names are hashable values; a definition with a state literally named None is refused by validate() since "
@@ -36,6 +41,8 @@ ASSUMPTIONS = [
     "validates but can never be read, because Python iterates a str character by character; '' as an input symbol "
     "is refused by validate() since /repo 07f4843)",
     "Python set/dict semantics are modelled (lists / association lists); iteration order is not relied on",
+    "NFA target collections may be any iterable of states without repetitions (set, frozenset, list, tuple): the model "
+    "sees them as lists used as sets",
 ]
 EXPLANATION = ("Theorems C01_* tie the model's reader to Mathlib's DFA/εNFA acceptance for every valid "
                "automaton and every word; this run ties the model to the code by differential execution.")
@@ -118,9 +125,12 @@ def parse_model(line: str, is_nfa: bool):
 
 
 @guarded
-def check_one(ctx: Ctx, m, w: str, is_nfa: bool, origin: str, enc3=None):
+def check_one(ctx: Ctx, m, w: str, is_nfa: bool, origin: str, enc3=None, defn=None, extra=None):
     """enc3: encoding taken when the automaton was built (used for sequences of reads on one
-    instance under the mutable-automata option: the definition must not drift)."""
+    instance under the mutable-automata option: the definition must not drift).
+    defn: the definition the automaton was built from (FR.Defn, a deep copy of the constructor arguments):
+    the textbook run is then taken from it instead of from the automaton's own attributes.
+    extra: what a replay needs besides (automaton, word) — (message prefix, dict merged into the replay)."""
     drv = ctx.driver("drv_fa_core")
     if enc3 is not None:
         enc, st, sy = enc3
@@ -169,8 +179,10 @@ def check_one(ctx: Ctx, m, w: str, is_nfa: bool, origin: str, enc3=None):
     if impl != mod:
         case = dict(automaton=repr(m), word=w, kind="NFA" if is_nfa else "DFA")
         # is the *real code* wrong w.r.t. the textbook definition?
-        rtr, racc = (ref_nfa if is_nfa else ref_dfa)(m, w)
+        rtr, racc = (ref_nfa if is_nfa else ref_dfa)(m if defn is None else defn, w)
         textbook = dict(trace=[cfg(c) for c in rtr], acc=("ok", int(racc)))
+        if extra is not None:
+            case.update(extra[1])
         wrong = []
         if impl["trace"] != textbook["trace"]:
             wrong.append("stepwise configurations differ from the textbook run")
@@ -191,7 +203,7 @@ def check_one(ctx: Ctx, m, w: str, is_nfa: bool, origin: str, enc3=None):
         if impl["exn"] not in (None, "RejectionException"):
             wrong.append(f"crash {impl['exn']}")
         if wrong:
-            ctx.prop_fail(f"{case['kind']} reading {w!r}: " + "; ".join(wrong),
+            ctx.prop_fail((extra[0] if extra is not None else "") + f"{case['kind']} reading {w!r}: " + "; ".join(wrong),
                           dict(case, impl=impl, textbook=textbook, nonstr=repr(nonstr)), None)
         else:
             ctx.corr_diff("NFA_READ" if is_nfa else "DFA_READ", case, impl, mod)
@@ -313,6 +325,106 @@ def junk_row_nfa(rng, max_states=5):
     rng.shuffle(keys)
     return NFA(states=set(n0.states), input_symbols=set(sy), transitions={k: trans[k] for k in keys},
                initial_state=n0.initial_state, final_states=set(n0.final_states))
+
+
+# ------------------------------------------------------------------ round 4: constructor arguments used again
+def run_scenario(ctx: Ctx, scenario, origin: str):
+    """(kind, mutable, kw0, steps) of harness/fa_reuse.py: build from the same container objects several times,
+    with in-place edits in between.  Every automaton is judged against the textbook run (and the model) of a
+    deep copy of the containers taken at the moment of ITS construction."""
+    import copy
+
+    import automata.base.config as global_config
+    from automata.base.exceptions import AutomatonException
+    kind, mutable, kw0, steps = scenario
+    is_nfa = kind == "NFA"
+    cls = NFA if is_nfa else DFA
+    kw = copy.deepcopy(kw0)  # the container objects of this scenario; never replaced, only edited
+    rp = dict(op="reuse", scenario=repr(scenario))
+    built = []
+    n_build = 0
+    edits = []
+    for step in steps:
+        if step[0] != "build":
+            FR.apply_edit(kw, step)
+            edits.append(step)
+            ctx.stat("reuse_edit_" + step[0])
+            continue
+        _, words, expect_ok = step
+        n_build += 1
+        defn = FR.Defn(kind, kw)
+        global_config.allow_mutable_automata = mutable
+        try:
+            try:
+                r = ("ok", cls(**kw))
+            except RecursionError:
+                raise
+            except Exception as e:  # noqa: BLE001
+                r = ("err", e)
+        finally:
+            global_config.allow_mutable_automata = False
+        ctx.case(None)
+        ctx.stat(origin + ":build")
+        ctx.stat(f"reuse_build_{min(n_build, 4)}{'+' if n_build >= 4 else ''}_{'ok' if r[0] == 'ok' else 'refused'}")
+        if mutable:
+            ctx.stat("reuse_under_allow_mutable_automata")
+        hist = (f"{kind} construction #{n_build} from the same container objects" if n_build > 1 else
+                f"{kind} built from plain containers")
+        hist += (f" (after {len(edits)} in-place edit(s), last {edits[-1]!r})" if edits else "") + ": "
+        if expect_ok and r[0] == "err":
+            ctx.prop_fail(hist + f"the containers hold a valid definition now, the constructor raises "
+                          f"{type(r[1]).__name__}", dict(rp, kind=kind), None)
+            return
+        if not expect_ok:
+            if r[0] == "ok":
+                ctx.prop_fail(hist + "the containers hold an invalid definition now (a target that is no state), the "
+                              "constructor accepts it", dict(rp, kind=kind), None)
+                return
+            if not isinstance(r[1], AutomatonException):
+                ctx.prop_fail(hist + f"invalid definition: the constructor crashes with {type(r[1]).__name__}",
+                              dict(rp, kind=kind), None)
+                return
+            continue
+        m = r[1]
+        enc3 = (enc_nfa if is_nfa else enc_dfa)(defn)
+        for w in words:
+            check_one(ctx, m, w, is_nfa, origin, enc3=enc3, defn=defn, extra=(hist, rp))
+        if not mutable:
+            # frozen configuration: automata built earlier keep following the table they were built from
+            for (m0, defn0, enc0, hist0) in built[-2:]:
+                for w in words[1:3]:
+                    check_one(ctx, m0, w, is_nfa, origin + ":earlier_automaton", enc3=enc0, defn=defn0,
+                              extra=(hist0 + "read again after the containers were edited and used again: ", rp))
+        built.append((m, defn, enc3, hist))
+
+
+def reuse_family(ctx: Ctx, count: int):
+    for _ in range(count):
+        run_scenario(ctx, FR.rand_scenario(ctx.rng), "constructor_argument_reuse")
+
+
+def target_collection_family(ctx: Ctx, count: int):
+    """NFAs whose target collections are lists / tuples / frozensets / sets (the default configuration stores a
+    list as a tuple, allow_mutable_automata keeps it a list)."""
+    import automata.base.config as global_config
+    rng = ctx.rng
+    for _ in range(count):
+        style = rng.choice(["list", "tuple", "mixed", "mixed", "frozenset"])
+        n0 = gen.rand_nfa(rng, 5) if rng.random() < 0.7 else junk_row_nfa(rng, 4)
+        kw = FR.nfa_kw(rng, n0, style)
+        mutable = rng.random() < 0.3
+        defn = FR.Defn("NFA", kw)
+        global_config.allow_mutable_automata = mutable
+        try:
+            m = NFA(**kw)
+        finally:
+            global_config.allow_mutable_automata = False
+        enc3 = enc_nfa(defn)
+        sy = sorted(kw["input_symbols"])
+        ctx.stat("nfa_targets_given_as_" + style + ("_mutable_option" if mutable else ""))
+        for _ in range(3):
+            check_one(ctx, m, gen.rand_word(rng, sy, 8, gen.foreign_symbol(sy)), True,
+                      "random_nfa_target_collections", enc3=enc3, defn=defn)
 
 
 # ------------------------------------------------------------------ big cases (oracle only)
@@ -488,6 +600,9 @@ def run(ctx: Ctx):
                           "random_mutable_option_sequence", enc3=enc3)
         finally:
             global_config.allow_mutable_automata = False
+    # round 4 (after the older families: their case streams are unchanged)
+    reuse_family(ctx, ctx.budget(250, 6000))
+    target_collection_family(ctx, ctx.budget(300, 6000))
 
 
 def replay(ctx: Ctx, path: str) -> int:
@@ -496,6 +611,8 @@ def replay(ctx: Ctx, path: str) -> int:
     env = {"DFA": DFA, "NFA": NFA, "frozenset": frozenset}
     if rp.get("op") == "none_state":
         none_state_corpus(ctx)
+    elif rp.get("op") == "reuse":
+        run_scenario(ctx, eval(rp["scenario"], env), "replay")  # repr() of a scenario of harness/fa_reuse.py
     elif rp.get("op") == "big":
         build, is_nfa = BIG[rp["name"]]
         check_big(ctx, rp["name"], build, [rp["word"]] if "word" in rp else BIG_WORDS, is_nfa)
